@@ -284,6 +284,7 @@ func (s *rlState) observe(m raftpb.Message) {
 	if d == nil {
 		return
 	}
+	rdEmit(s.waldir, s.snapdir, d, &m)
 	s.tr("  out %s to=%d term=%d index=%d logterm=%d commit=%d reject=%v ents=%d | %s", m.Type, m.To, m.Term, m.Index, m.LogTerm, m.Commit, m.Reject,
 		len(m.Entries), d)
 	defer func() { // E1 (after the clause that is specific to the message kind, so that the most telling one is reported)
@@ -1073,6 +1074,7 @@ func runReadyloop(args []string) {
 			os.Exit(2)
 		}
 		fmt.Fprintf(os.Stderr, "readyloop: scenario %s\n", sc.Name)
+		rdReset()
 		rep := rlRunScenario(sc, peers, &posted)
 		os.Chdir(root)
 		os.RemoveAll(dir)
